@@ -278,7 +278,19 @@ def main(tier, seed):
                 shapes=len(shapes), tlc_invariants=["AtomicAlways", "OutcomeMatches", "Repeatable", "RegistryAgrees", "NoCommitAfterFault"])
 
         # ---- 3a. trace validation of every statement log
-        tres = validate_traces(traces, scratch)
+        # self-check of the binding: corrupted copies of a real fault-free log must be rejected
+        good = next(t for t in traces if t["outcome"] == "ok" and meta[t["id"]]["kind"] == "none")
+        corrupt = {
+            "selfcheck-dropped-commit": [e for e in good["ev"] if e["e"] != "commit"],
+            "selfcheck-second-connection": good["ev"][:2] + [dict(good["ev"][0])] + good["ev"][2:],
+            "selfcheck-early-commit": good["ev"][:2] + [e for e in good["ev"] if e["e"] == "commit"] + [e for e in good["ev"][2:] if e["e"] != "commit"],
+            "selfcheck-dropped-statement": good["ev"][:2] + good["ev"][3:],
+        }
+        extra = [{"id": i, "K": good["K"], "outcome": "ok", "ev": ev} for i, ev in corrupt.items()]
+        tres = validate_traces(traces + extra, scratch)
+        for x in extra:
+            if tres.get(x["id"], ("accepted",))[0] != "rejected":
+                raise MachineryError(f"StoreTxTrace accepted the corrupted trace {x['id']}: the trace validation is not bound")
         ntr_ok = 0
         for tr in traces:
             v = tres.get(tr["id"])
